@@ -21,7 +21,7 @@ func init() {
 		Rule: "each case is a guided random walk of ~500 lock operations on one database (rollback or WAL mode) by 2-3 client lock owners issuing SQLite's byte-range lock calls through the FUSE handlers (single bytes, the SHARED range, READ1..4 ranges, range unlocks, flush) interleaved with LiteFS's internal writers (TryAcquireWriteLock/release, Recover, Checkpoint, halt-lock acquire/release, snapshot and export lock sequences, all with short deadlines); " +
 			"every call's result and the public state of all twelve locks are compared with a reference byte-range lock table extended with the one documented LiteFS rule (CKPT refused while another owner holds WRITE); WAL writes without the write lock must be refused; " +
 			"the walk prefers (state, operation) pairs not tried before; distinct = such pairs",
-		Assumptions: []string{"multi-byte client calls are modelled byte by byte in LiteFS's order, stopping at the first refusal (partial holds reduce availability, not exclusion)", "single scenario goroutine: outcomes of deadline-bounded internal sections are deterministic"},
+		Assumptions: []string{"a client call that names several lock bytes is one attempt: granted as a whole or refused without any change (POSIX fcntl)", "single scenario goroutine: outcomes of deadline-bounded internal sections are deterministic"},
 		NumCases: func(tier string) int {
 			if tier == "thorough" {
 				return 800
@@ -221,7 +221,10 @@ func runC11(c *core.Case) {
 				f = e.shm[o]
 			}
 			err := f.Lock(o, start, end, excl)
-			// reference: byte by byte, stop at the first refusal
+			// reference: one fcntl call is one attempt - the named bytes are tried in
+			// LiteFS's order on a copy of the table, and a refusal changes nothing
+			live := e.tab
+			e.tab = live.Clone()
 			want := true
 			gate := false
 			internalBlock := false
@@ -251,6 +254,12 @@ func runC11(c *core.Case) {
 					break
 				}
 				e.c.Count("granted_"+nm, 1)
+			}
+			if !want {
+				e.tab = live // a failed attempt changes nothing
+				if len(names) > 1 {
+					e.c.Count("range_calls_refused", 1)
+				}
 			}
 			got := err == nil
 			if err != nil && err != drv.ErrBusy {
